@@ -115,6 +115,7 @@ def hit_strategy(tier):
         "announcers": st.lists(st.integers(0, 50), min_size=1, max_size=3),
         "blob_mode": st.sampled_from(["random", "near_node", "near_announcer"]),
         "lookers_after_jump": st.integers(1, 4),
+        "re_subset": st.sampled_from(["all", "first", "first"]),
         "stages": st.sampled_from([["now"], ["now", "1h"], ["now", "24h-"], ["now", "24h+"], ["now", "1h", "24h-", "24h+"],
                                    ["now", "24h-", "24h+"], ["now", "re20h", "25h", "44h+"], ["re20h", "25h"],
                                    ["now", "re20h", "44h+"]]),
@@ -193,7 +194,7 @@ async def hit_async(case, out, loop):
             if n > K + 1:
                 out.check(have >= 1, "hit:none-of-the-closest-nodes-stores-the-blob", "n=%d have %d of %d" % (n, have, len(cand)))
 
-        async def check_lookups(stage, lookers, expect_hit):
+        async def check_lookups(stage, lookers, expect):
             for i in lookers:
                 if i in ann and len(ann) == 1:
                     continue
@@ -210,6 +211,9 @@ async def hit_async(case, out, loop):
                     if a == i:
                         continue
                     hit = (ip_of(a), 3333) in got
+                    expect_hit = expect[a] if isinstance(expect, dict) else expect
+                    if expect_hit is None:
+                        continue
                     if expect_hit and not hit:
                         out.violate("hit:announcer-not-found:" + stage,
                                     "n=%d looker %d announcer %d holders %r found %d peers delay %.2f dup %.2f" % (
@@ -247,7 +251,11 @@ async def hit_async(case, out, loop):
                 await asyncio.sleep(30)
                 await quiet(loop, nodes, net=net)
                 t_restart = loop.time()
-                for a in ann:
+                # all of them, or only the first: the others' announcements then simply run out
+                again = ann if case.get("re_subset", "all") == "all" or len(ann) < 2 else ann[:1]
+                if len(again) < len(ann):
+                    out.label("re-announce:first-only")
+                for a in again:
                     try:
                         stored = await asyncio.wait_for(nodes[a].announce_blob(key.hex()), 100000)
                     except asyncio.TimeoutError:
@@ -261,10 +269,16 @@ async def hit_async(case, out, loop):
             elif stage == "25h":
                 await quiet(loop, nodes, net=net)
                 await jump(loop, max(0, (t_start + 90000) - loop.time()))
-                await check_lookups("25h-after-reannounce-at-20h", some, True)
+                await asyncio.sleep(30)         # the storing nodes' hourly refresh (expired entries are dropped) runs first
+                await quiet(loop, nodes, net=net)
+                # whoever announced again 5 h ago is found; an announcement that was not repeated is 25 h old by now
+                await check_lookups("25h-after-reannounce-at-20h", some,
+                                    {a: True if a in again else (False if t_done - t_start < 3000 else None) for a in ann})
             elif stage == "44h+":
                 await quiet(loop, nodes, net=net)
                 await jump(loop, max(0, (t_redone + 86400 + 300) - loop.time()))
+                await asyncio.sleep(30)
+                await quiet(loop, nodes, net=net)
                 await check_lookups("24h+5min-after-reannounce", some, False)
             out.label("stage:" + stage)
         if net.handler_errors:
@@ -771,7 +785,7 @@ def _run(fn, case):
 
 PARTS = [
     Part("hit", hit_strategy, lambda c: _run(hit_async, c), 80, 250, quick_shards=6, thorough_shards=16,
-         essential=("stage:24h+", "stage:24h-", "stage:1h", "stage:re20h", "stage:25h", "stage:44h+", "duplicated", "reordered",
+         essential=("stage:24h+", "stage:24h-", "stage:1h", "stage:re20h", "stage:25h", "stage:44h+", "re-announce:first-only", "duplicated", "reordered",
                     "n:5-12", "n:13-40")),
     Part("paging", paging_strategy, lambda c: _run(paging_async, c), 200, 1000, quick_shards=4, thorough_shards=16,
          essential=("m:89-100", "m:17-88", "storers:1", "storers:3")),
